@@ -135,11 +135,10 @@ class PlanJoinTablesQuery:
 
         # try to use default namespace
         integration = self.planner.default_namespace
-        if len(table.parts) > 0:
-            if table.parts[0] in self.planner.databases:
-                integration = table.parts.pop(0)
-            else:
-                integration = self.planner.default_namespace
+        if len(table.parts) > 1:
+            # names of databases are in lower case
+            if table.parts[0].lower() in self.planner.databases:
+                integration = table.parts.pop(0).lower()
 
         if integration is None and not hasattr(table, 'sub_select'):
             raise PlanningException(f'Integration not found for: {table}')
